@@ -279,9 +279,12 @@ fn create_semantic_token(
     token_modifier: u32,
 ) -> SemanticToken {
     let Position { line, character } = as_position(token.range.start, text);
-    let length = token
-        .range
-        .len()
+    // lengths are counted in UTF-16 code units, and a token must not span multiple lines
+    // (the range of a comment includes its line terminator)
+    let length = text[token.range.clone()]
+        .trim_end_matches(|c| c == '\n' || c == '\r')
+        .encode_utf16()
+        .count()
         .try_into()
         .expect("Cannot convert range length to u32");
     let delta_line = line - previous_token_pos.line;
